@@ -38,6 +38,8 @@ func scanLeaf(v reflect.Value) (uint64, bool) {
 	switch x := v.Interface().(type) {
 	case Money:
 		return uint64(x.cents), true
+	case Amount:
+		return uint64(x.Cents), true
 	case sql.NullInt64:
 		return uint64(x.Int64), true
 	case Counted:
@@ -50,6 +52,9 @@ func scanLeaf(v reflect.Value) (uint64, bool) {
 func scanLeafZero(v reflect.Value) bool {
 	if c, ok := v.Interface().(Counted); ok {
 		return c.V == 0
+	}
+	if a, ok := v.Interface().(Amount); ok {
+		return a.Cents == 0 // (the currency is not part of what Scan stores)
 	}
 	return v.IsZero()
 }
@@ -702,6 +707,75 @@ func releaseCheck(sqldb *sql.DB, f *fakeDB) string {
 var scanOtherStmt = sqlair.MustPrepare("SELECT &Address.* FROM address", Address{})
 var scanOtherStmt2 = sqlair.MustPrepare("SELECT (a, b) AS (&M.x, &Person.name), &Address.id FROM t WHERE id = $Person.id", sqlair.M{}, Person{}, Address{})
 
+// cloneValue: a deep copy (pointers, maps and slices are allocated anew).
+func cloneValue(v reflect.Value) reflect.Value {
+	switch v.Kind() {
+	case reflect.Pointer:
+		if v.IsNil() {
+			return v
+		}
+		p := reflect.New(v.Type().Elem())
+		p.Elem().Set(cloneValue(v.Elem()))
+		return p
+	case reflect.Struct:
+		n := reflect.New(v.Type()).Elem()
+		n.Set(v)
+		for i := 0; i < n.NumField(); i++ {
+			if n.Field(i).CanSet() {
+				n.Field(i).Set(cloneValue(v.Field(i)))
+			}
+		}
+		return n
+	case reflect.Map:
+		if v.IsNil() {
+			return v
+		}
+		m := reflect.MakeMapWithSize(v.Type(), v.Len())
+		it := v.MapRange()
+		for it.Next() {
+			m.SetMapIndex(it.Key(), cloneValue(it.Value()))
+		}
+		return m
+	case reflect.Slice:
+		if v.IsNil() {
+			return v
+		}
+		sl := reflect.MakeSlice(v.Type(), v.Len(), v.Len())
+		for i := 0; i < v.Len(); i++ {
+			sl.Index(i).Set(cloneValue(v.Index(i)))
+		}
+		return sl
+	case reflect.Interface:
+		if v.IsNil() {
+			return v
+		}
+		n := reflect.New(v.Type()).Elem()
+		n.Set(cloneValue(v.Elem()))
+		return n
+	}
+	return v
+}
+
+// restoreDest puts what the destination d points to (or the map d is) back to a fresh copy of saved.
+func restoreDest(d any, saved reflect.Value) {
+	if d == nil || !saved.IsValid() {
+		return
+	}
+	v := reflect.ValueOf(d)
+	switch {
+	case v.Kind() == reflect.Pointer && !v.IsNil() && !saved.IsNil():
+		v.Elem().Set(cloneValue(saved.Elem()))
+	case v.Kind() == reflect.Map && !v.IsNil():
+		for _, k := range v.MapKeys() {
+			v.SetMapIndex(k, reflect.Value{})
+		}
+		it := saved.MapRange()
+		for it.Next() {
+			v.SetMapIndex(it.Key(), cloneValue(it.Value()))
+		}
+	}
+}
+
 // scratchDests: fresh destinations of the same types (what cannot be a destination is passed as it is).
 func scratchDests(dests []any) []any {
 	var out []any
@@ -749,6 +823,7 @@ func implScan(c *scanCase) (o scanObs) {
 	defer sqldb.Close()
 	sqldb.SetMaxOpenConns(1)
 	held := c.colSeed%4 == 1
+	twice := !held && c.colSeed%5 == 2
 	warmup := false
 	f.rowsFor = func(sqlText string, _ []driver.NamedValue) *rowsScript {
 		seen := map[string]bool{}
@@ -767,6 +842,9 @@ func implScan(c *scanCase) (o scanObs) {
 		}
 		cols, row, cells := colScript(c.mode, c.colSeed, n)
 		c.cols, c.cells = cols, cells
+		if twice {
+			return &rowsScript{Cols: cols, Rows: [][]driver.Value{row, row}, FailAt: -1}
+		}
 		return &rowsScript{Cols: cols, Rows: [][]driver.Value{row}, FailAt: -1}
 	}
 	db := sqlair.NewDB(sqldb)
@@ -795,6 +873,38 @@ func implScan(c *scanCase) (o scanObs) {
 			}
 			it.Close()
 			warmup = false
+		}
+		if twice {
+			// an explicit loop over two equal rows with the SAME destinations: between the rows the caller
+			// puts the destinations back as they were, with freshly allocated embedded structs, maps and
+			// pointers.  The second Get finds its targets in what the destinations hold now.
+			saved := make([]reflect.Value, len(c.dests))
+			for i, d := range c.dests {
+				if d != nil {
+					saved[i] = cloneValue(reflect.ValueOf(d))
+				}
+			}
+			it := q.Iter()
+			var gerr error
+			if it.Next() {
+				it.Get(c.dests...)
+				for i, d := range c.dests {
+					restoreDest(d, saved[i])
+				}
+				if it.Next() {
+					gerr = it.Get(c.dests...)
+				} else {
+					gerr = fmt.Errorf("second row not delivered")
+				}
+			} else if it.Close() == nil {
+				gerr = sqlair.ErrNoRows
+			}
+			cerr := it.Close()
+			if gerr == nil {
+				gerr = cerr
+			}
+			done <- gerr
+			return
 		}
 		done <- q.Get(c.dests...)
 	}()
